@@ -492,7 +492,7 @@ namespace cds { namespace memory {
 
         ok:
             assert( from_pool(p));
-            return p;
+            return new( p ) value_type;
         }
 
         /// Deallocates the object \p p
@@ -509,6 +509,7 @@ namespace cds { namespace memory {
 
             if ( p ) {
                 assert( from_pool( p ));
+                p->~value_type();
                 back_off bkoff;
                 // The queue can notify it is full but that is false fullness state
                 // So, we push in loop
